@@ -580,6 +580,26 @@ func c16Helpers(w *World, b *Backend, r *Result, rules ...string) {
 			invokedBy[h][lineKey(l)] = true
 		}
 	}
+	// a command spelled like a routine of the compiler's own (leading underscore) has to be one
+	// of the routines ProgramEnd can emit: otherwise the script calls a function nobody defines
+	if b.Role == "bash" {
+		seenUndef := map[string]bool{}
+		for _, l := range b.Lines {
+			if l.Bash == nil {
+				continue
+			}
+			for _, c := range l.Bash.Commands {
+				if !strings.HasPrefix(c, "_") || strings.ContainsAny(c, "⟨⟩${") {
+					continue
+				}
+				if _, ok := b.Helpers[c]; ok || seenUndef[c] {
+					continue
+				}
+				seenUndef[c] = true
+				r.Bad(rule, "helper:"+b.Role+":"+c+":undefined", w.Pos(l.Em.Pos), fmt.Sprintf("%s emits a call of %s, but no routine of that name is ever written to the script", lineKey(l), c))
+			}
+		}
+	}
 	var hs []string
 	for h := range b.Helpers {
 		hs = append(hs, h)
